@@ -6,6 +6,7 @@ CONSTANTS
   Canon = TRUE
   SymKinds = {"R", "DI"}
   Kinds = {"R","L","DI"}
+  Light = FALSE
   Ws <- WsQuick
 INVARIANT Check
 CHECK_DEADLOCK FALSE
